@@ -68,6 +68,8 @@ func (w *World) can(tr string) bool {
 		return ai(1) < len(w.readers) && !w.readers[ai(1)].closed && w.readers[ai(1)].ctx.Err() == nil
 	case "mtick":
 		return w.t.infoComplete == 0
+	case "wsmode":
+		return w.seed != nil && w.seed.mode != f[1]
 	case "ev", "drain":
 		return len(w.t.Event) > 0
 	case "unwant":
